@@ -19,12 +19,50 @@ fn main() {
     util::quiet_panics();
     match cmd {
         "gen" => match prop {
+            "C01" => props::c01::gen(&tier, seed, &out),
+            "C02" => props::c02::gen(&tier, seed, &out),
+            "C03" => props::c03::gen(&tier, seed, &out),
+            "C04" => props::c04::gen(&tier, seed, &out),
             "C05" => props::c05::gen(&tier, seed, &out),
+            "C06" => props::c06::gen(&tier, seed, &out),
+            "C07" => props::c07::gen(&tier, seed, &out),
+            "C08" => props::c08::gen(&tier, seed, &out),
+            "C09" => props::c09::gen(&tier, seed, &out),
+            "C10" => props::c10::gen(&tier, seed, &out),
+            "C11" => props::c11::gen(&tier, seed, &out),
+            "C12" => props::c12::gen(&tier, seed, &out),
+            "C13" => props::c13::gen(&tier, seed, &out),
+            "C14" => props::c14::gen(&tier, seed, &out),
+            "C15" => props::c15::gen(&tier, seed, &out),
+            "C16" => props::c16::gen(&tier, seed, &out),
+            "C17" => props::c17::gen(&tier, seed, &out),
+            "C18" => props::c18::gen(&tier, seed, &out),
+            "C19" => props::c19::gen(&tier, seed, &out),
+            "C20" => props::c20::gen(&tier, seed, &out),
             _ => { eprintln!("unknown property {}", prop); std::process::exit(2); }
         },
         "oracle" => {
             let (tried, fs) = match prop {
+                "C01" => props::c01::oracle(&tier, seed),
+                "C02" => props::c02::oracle(&tier, seed),
+                "C03" => props::c03::oracle(&tier, seed),
+                "C04" => props::c04::oracle(&tier, seed),
                 "C05" => props::c05::oracle(&tier, seed),
+                "C06" => props::c06::oracle(&tier, seed),
+                "C07" => props::c07::oracle(&tier, seed),
+                "C08" => props::c08::oracle(&tier, seed),
+                "C09" => props::c09::oracle(&tier, seed),
+                "C10" => props::c10::oracle(&tier, seed),
+                "C11" => props::c11::oracle(&tier, seed),
+                "C12" => props::c12::oracle(&tier, seed),
+                "C13" => props::c13::oracle(&tier, seed),
+                "C14" => props::c14::oracle(&tier, seed),
+                "C15" => props::c15::oracle(&tier, seed),
+                "C16" => props::c16::oracle(&tier, seed),
+                "C17" => props::c17::oracle(&tier, seed),
+                "C18" => props::c18::oracle(&tier, seed),
+                "C19" => props::c19::oracle(&tier, seed),
+                "C20" => props::c20::oracle(&tier, seed),
                 _ => { eprintln!("unknown property {}", prop); std::process::exit(2); }
             };
             util::write_findings(&out, prop, tried, &fs);
